@@ -20,6 +20,7 @@ DOC = {
     'R9': 'one struct field type replaced by an opaque stand-in (Vec<Box<dyn Mutator>> is outside Verus)',
     'R10': 'top-level `match opcode {..}` split into one function per arm plus a generated dispatcher that is itself verified against the shared contract',
     'R11': 'is_some_and(|c| E) -> match on the Option with the closure body inlined',
+    'R18': 'for m in &self.mutators { B } -> index loop over the opaque list of registered mutators (vf_mutators_len / vf_mutator_at)',
     'R17': 'alpha-renaming of a local variable whose name is a reserved word inside verus! (int)',
     'R16': 'for _ in 0..N { B } -> let mut vf_i = 0; while vf_i < N { B; vf_i += 1 } (B without continue)',
     'R15': 'X.iter().filter(|&&op| P).copied().collect() -> explicit while loop pushing the elements that satisfy P, in order',
@@ -191,6 +192,31 @@ def r12all(text, args, label):
     return r12(text, args, label, every=True)
 
 
+def r18(text, args, label):
+    """for mutator in &self.mutators { B }  ->  index loop over the opaque mutator list:
+    let mut vf_k = 0; while vf_k < vf_mutators_len(&self.mutators) { let mutator = vf_mutator_at(&self.mutators, vf_k); vf_k += 1; B }
+    (B may `break`; it has no `continue`).  All occurrences."""
+    n = 0
+    while True:
+        m = mask(text)
+        mm = re.search(r'for\s+(\w+)\s+in\s+&self\s*\.\s*mutators\s*\{', m)
+        if not mm:
+            break
+        var = mm.group(1)
+        o = mm.end() - 1
+        c = match_close(m, o)
+        body = text[o + 1:c]
+        if re.search(r'\bcontinue\b', mask(body)):
+            raise LostAnchor('%s: R18 loop body contains continue' % label)
+        new = ('let mut vf_k: usize = 0;\n        while vf_k < vf_mutators_len(&self.mutators) {\n'
+               '            let %s = vf_mutator_at(&self.mutators, vf_k);\n            vf_k += 1;%s}' % (var, body))
+        text = text[:mm.start()] + new + text[c + 1:]
+        n += 1
+    if n == 0:
+        raise LostAnchor('%s: R18 pattern not found' % label)
+    return text
+
+
 def r17(text, args, label):
     """alpha-rename a local variable whose name is reserved inside verus! (e.g. `int`): args = [old, new]"""
     old, new = args
@@ -277,7 +303,7 @@ def r14(text, args, label):
     return ''.join(out)
 
 
-RULES = {'R17': r17, 'R16': r16, 'R15': r15, 'R12ALL': r12all, 'R14': r14, 'R1': r1, 'R2': r2, 'R3': r3, 'R11': r11, 'R12': r12}
+RULES = {'R18': r18, 'R17': r17, 'R16': r16, 'R15': r15, 'R12ALL': r12all, 'R14': r14, 'R1': r1, 'R2': r2, 'R3': r3, 'R11': r11, 'R12': r12}
 
 
 def apply(name, text, args, label):
